@@ -190,14 +190,33 @@ class GhostList:
 # loop contract
 
 
+def _immutable(v):
+    """values a loop cannot change in place: numbers, texts, bytes, None, functions / bound methods of such, struct objects, tuples of these"""
+    import struct as _struct
+    import types as _types
+    from .strings import SymStr
+    if v is None or isinstance(v, (bool, int, float, str, bytes, frozenset, core.SymInt, core.SymBool, core.SymFloat, core.SymBytes, SymStr,
+                                   _struct.Struct, _types.FunctionType, _types.BuiltinFunctionType, type)):
+        return True
+    if isinstance(v, _types.MethodType):
+        return _immutable(v.__self__) or type(v.__self__).__name__ in ("StructModel", "Struct")
+    if isinstance(v, tuple):
+        return all(_immutable(x) for x in v)
+    return type(v).__name__ in ("StructModel",)
+
+
 class _AliasView:
     """the loop's locals under the contract's names (see LoopSpec._view)"""
 
-    def __init__(self, L, alias):
-        self.L, self.alias = L, alias
+    def __init__(self, L, alias, loop=""):
+        self.L, self.alias, self.loop = L, alias, loop
 
     def __getitem__(self, k):
-        return self.L[self.alias.get(k, k)]
+        a = self.alias.get(k, k)
+        if a not in self.L:
+            # the contract speaks of a local the (edited) loop does not have: the contract does not bind, nothing is wrong with the code
+            raise Unsupported("loop contract %s refers to local %r, which the function does not bind here" % (self.loop, k))
+        return self.L[a]
 
     def __setitem__(self, k, v):
         self.L[self.alias.get(k, k)] = v
@@ -229,7 +248,7 @@ class LoopSpec:
     # exactly one undeclared local is read by the loop (and it can play the role: a heap name must be havoc-able), the contract
     # is applied to that local (recorded in the evidence notes as loop-alias).  Anything less clear-cut stays Unsupported.
     def _view(self, L):
-        return _AliasView(L, self.alias) if self.alias else L
+        return _AliasView(L, self.alias, self.name)
 
     # -- what the contract says
     def invariant(self, L, k):
@@ -255,6 +274,10 @@ class LoopSpec:
             self.alias = {gone[0]: missing[0]}
             ctx().notes.append("loop-alias:%s:%s->%s" % (self.name, gone[0], missing[0]))
             missing = []
+        # an undeclared local bound to an immutable value at loop entry (a hoisted length, a bound method, a struct object): if
+        # the loop does not assign it -- havoc() is told -- it is a constant of the loop whatever its name; it is noted as such
+        self.frozen = set(n for n in missing if _immutable(L[n]))
+        missing = [n for n in missing if n not in self.frozen]
         if missing:
             raise Unsupported("loop %s reads locals %s that its contract does not classify (havoc / heap / const)" % (self.name, missing))
         for n in self.heap:
@@ -272,6 +295,11 @@ class LoopSpec:
         if name in self.havoc_names:
             return self.havoc_names[name](self, self._view(L))
         L = {name: L[actual]} if (actual != name and actual in L) else L
+        if name in getattr(self, "frozen", ()):
+            if assigned:
+                raise Unsupported("loop %s assigns local %r, which its contract does not classify (havoc / heap / const)" % (self.name, name))
+            ctx().notes.append("loop-const:%s:%s" % (self.name, name))
+            return L[name]
         if not assigned:
             # only read (or mutated in place) by the loop: unchanged binding; enter() has checked that it is declared heap/const
             return L[name] if name in L else Poison(name)
